@@ -8,6 +8,7 @@ from concurrent.futures import ThreadPoolExecutor
 
 from lib import common as C
 from lib import c07script
+from lib import c07mod
 
 PROP = "C07"
 LEVEL = "proof"
@@ -612,6 +613,26 @@ def _body(res, tier, obs, model, work, proved):
         return
     cov["script_global_histories"] = {"histories": len(shs), "invocations": script_evals, "rerun_after_timeout": len(redo),
                                       "kinds_of_code_object_reused_after_an_earlier_invocation": sorted(script_reuse)}
+    # histories over file modules behind risor's own importers (one importer shared by all invocations and by up to two VMs):
+    # an invocation ends inside a module's top-level code or inside the importer's load of it (error, panic, frame
+    # exhaustion, cancellation, expiry), later invocations import the module again
+    nmod = 400 if tier == "quick" else 12000
+    ntimed = 12 if tier == "quick" else 150
+    mods = [c07mod.gen_history("m%d" % i, rng) for i in range(nmod)] + [c07mod.gen_timed("t%d" % i, rng) for i in range(ntimed)]
+    oimpl, oerrs = run_sharded(obs, [json.dumps(h[0]) for h in mods], work, "modimp")
+    if oerrs:
+        res.violation({"property": PROP, "kind": "harness-run-failed", "stage": "module histories", "impl_errors": oerrs[:3]}, nofail=True, tag="run")
+        return
+    mod_evals = 0
+    mod_tags = set()
+    for h, expect, tags in mods:
+        bad, judged = c07mod.judge(h, expect, oimpl.get(h["id"], ""))
+        mod_evals += judged
+        mod_tags.update(tags)
+        if bad:
+            bad["history"] = h
+            module_viol.append(bad)
+    cov["importer_module_histories"] = {"histories": len(mods), "invocations_judged": mod_evals, "situations": sorted(mod_tags)}
     if ierrs or merrs or len(impl) != len(hs) or len(mod) != len(hs):
         res.violation({"property": PROP, "kind": "harness-run-failed", "impl_errors": ierrs[:3], "model_errors": merrs[:3],
                        "impl_lines": len(impl), "model_lines": len(mod), "expected": len(hs)}, nofail=True, tag="run")
@@ -682,8 +703,8 @@ def _body(res, tier, obs, model, work, proved):
     for cfgname in ("pinned", "nopush", "nodrop", "norunip", "nomods"):
         r, e = run_sharded(model, wl, work, "w_" + cfgname, (cfgname,))
         pre[cfgname] = {k: _short(v) for k, v in r.items()}
-    cov["evaluations"] = evals + cov.get("script_global_histories", {}).get("invocations", 0)
-    cov["distinct_nontrivial"] = len(nontrivial)
+    cov["evaluations"] = evals + cov.get("script_global_histories", {}).get("invocations", 0) + mod_evals
+    cov["distinct_nontrivial"] = len(nontrivial) + len(mod_tags)
     cov["rule"] = ("histories on ONE shared VM through vm.New/NewEmpty, RunCode, Run (REPL protocol), Call: the 6 witness histories of "
                    "props/C07.v; every (kind,api) x (kind,api) pair x {first context never cancelled, cancelled after its run, "
                    "cancelled inside the second run} (%d histories); seeded random histories of length 3..%d with kinds "
@@ -701,7 +722,12 @@ def _body(res, tier, obs, model, work, proved):
                    "read and write int globals that other invocations assign, "
                    "declare or leave half-changed by a failing piece; each invocation is repeated on a new VM that runs everything earlier as one "
                    "program in one Run, and its result and the globals must also equal the generator's own account. Non-trivial = distinct (tag sequence, position) with an "
-                   "earlier abnormal end or a stale cancellation in play." % (len(enumerate_pairs(C.Rng(1))), max(nrand)))
+                   "earlier abnormal end or a stale cancellation in play. Importer-module histories: modules ma/mb/mc (random bodies, mb and mc may import others at top level) "
+                   "served by importer.NewLocalImporter (directory) or importer.NewFSImporter (in-memory fs whose Open is a host hook), ONE importer for all invocations "
+                   "of a history and for its 1-2 VMs; the host's fuse ends an invocation at a chosen tick(module, point) call of a module's top-level code (0-5 frames deep: error value, "
+                   "Go panic, frame exhaustion, cancel / expiry of the invocation's context with the watcher waited for) or at the importer's read of a module file (cancel, expiry, "
+                   "read error), or a real deadline falls inside the load of a 12000-statement module (that invocation is not judged); later Run / Call / RunCode invocations on the "
+                   "same or the other VM import the modules again and must equal a new VM behind a new importer and the generator's own account." % (len(enumerate_pairs(C.Rng(1))), max(nrand)))
     cov["samples"] = samples
     cov["correspondence"] = {"invocations": evals, "differences": len(corr_diffs),                              "settle_timeouts": settle_to,
                              "histories_skipped_after_a_hang": skipped}
@@ -765,6 +791,17 @@ def replay(data):
     if not h:
         print("no history in the replay file")
         return 0
+    if h.get("mode") == "mod":
+        for name, src in sorted(h["mods"].items()):
+            print("--- module %s (%s importer)\n%s" % (name, h["imp"], src[:1500]))
+        for k, it in enumerate(h["items"]):
+            print("--- invocation %d: VM %d %s ctx=%s fuse=%s: %s" % (k, it["vm"], it["api"], it["ctx"], it["fuse"], it.get("fn") or it.get("src")))
+        rc, o, e = C.run([obs], input=(json.dumps(h) + "\n").encode(), timeout=120)
+        line = o.strip().split("\t")[-1]
+        print("implementation now (reused VM|new VM per invocation): " + line)
+        bad = [p for p in line.split(";") if len(p.split("|")) == 2 and p.split("|")[1] != "-" and p.split("|")[0] != p.split("|")[1]]
+        print("invocations that differ from a new VM behind a new importer: %d" % len(bad))
+        return 1 if bad else 0
     if h.get("mode") == "script":
         for k, it in enumerate(h["items"]):
             print("--- invocation %d: %s" % (k, "Run of the piece" if it["api"] == "RN" else "Call %s%s" % (it.get("fn") or it.get("reg"), tuple(it.get("args") or ()))))
